@@ -17,13 +17,22 @@ def all_mutators():
     return res
 
 
-def enumerate_proposals(exprs, only=None, max_per_node=60, time_limit=20):
-    """Yields dicts: node index (BFS), mutator class, kind, simplification, result (list of nodes) or error."""
+def enumerate_proposals(exprs, only=None, max_per_node=60, time_limit=20, mem=False, mutator_objects=None):
+    """Yields dicts: node index (BFS), mutator class, kind, simplification, result (list of nodes) or error.
+    mem=True: the peak of the memory allocated while filter/mutations ran is measured (tracemalloc) and reported
+    as one extra dict per (node, mutator) with kind='mem'."""
     import common
+    if mem:
+        import tracemalloc
+        tracemalloc.start()
     smtlib.collect_information(exprs)
-    muts = [(t, c, m) for t, c, m in all_mutators() if only is None or c in only]
+    # mutator_objects: objects that live across several inputs, as in a pass of ddSMT (default: fresh ones)
+    muts = [(t, c, m) for t, c, m in (mutator_objects or all_mutators()) if only is None or c in only]
     for idx, node in enumerate(nodes.bfs(exprs), 1):
         for tname, cls, m in muts:
+            if mem:
+                tracemalloc.reset_peak()
+                base_ = tracemalloc.get_traced_memory()[0]
             try:
                 with common.time_limit(time_limit):
                     if hasattr(m, 'filter') and not m.filter(node):
@@ -43,10 +52,16 @@ def enumerate_proposals(exprs, only=None, max_per_node=60, time_limit=20):
                 yield dict(idx=idx, node=node, cls=cls, kind='filter/mutations', error='hang')
                 continue
             except Exception as e:  # noqa
+                if mem:
+                    yield dict(idx=idx, node=node, cls=cls, kind='mem', peak=tracemalloc.get_traced_memory()[1] - base_, error='(measurement)')
                 yield dict(idx=idx, node=node, cls=cls, kind='filter/mutations', error=f'{type(e).__name__}: {e}')
                 continue
+            if mem:
+                yield dict(idx=idx, node=node, cls=cls, kind='mem', peak=tracemalloc.get_traced_memory()[1] - base_, error='(measurement)')
             for kind, s in props:
                 yield dict(idx=idx, node=node, cls=cls, kind=kind, simp=s)
+    if mem:
+        tracemalloc.stop()
 
 
 def apply(exprs, simp):
